@@ -459,6 +459,30 @@ func hostByName(name string) interface{} {
 		return deepValue(deepType(120)).Interface()
 	case "H_selfref":
 		return selfRef{Val: 1}
+	case "H_map_reserved_key":
+		return map[string]interface{}{"type": "order", "map": 1, "return": true, "price": 42}
+	case "H_struct_reserved_tag":
+		return struct {
+			T string `yae:"type"`
+			L []int  `yae:"list"`
+			P int    `yae:"price"`
+		}{"order", []int{1}, 42}
+	case "H_map_odd_keys":
+		return map[string]interface{}{"": 1, "a b": 2, "1x": 3, "é": 4, "true": 5, "if": 6}
+	case "H_iface_cycle":
+		// an interface holding a pointer to itself: following it never ends
+		var x interface{}
+		x = &x
+		return x
+	case "H_ptr_cycle":
+		// a struct reachable from itself through its own pointer field
+		n := &selfRef{Val: 1}
+		n.Next = n
+		return n
+	case "H_iface_cycle_field":
+		var x interface{}
+		x = &x
+		return struct{ A interface{} }{x}
 	case "H_mixed_iface_slice":
 		return struct{ Xs []interface{} }{[]interface{}{1, "a"}}
 	case "H_map_intkeys":
